@@ -60,8 +60,11 @@ func parseJUnitXMLTestResults(data []byte) (core.TestSuites, error) {
 				// One or more bare tests, put each one in a synthetic test suite
 				testSuite := core.TestSuite{}
 				xmlTest := jUnitXMLTest{}
-				testCase := core.TestCase{}
 				decoder.DecodeElement(&xmlTest, &tok)
+				testCase := core.TestCase{
+					ClassName: xmlTest.ClassName,
+					Name:      xmlTest.Name,
+				}
 				appendResult(xmlTest, &testCase)
 				testSuite.TestCases = append(testSuite.TestCases, testCase)
 				testSuite.Duration += xmlTest.Duration()
